@@ -286,7 +286,9 @@ def explore_body(body: bytes, boundary: bytes):
             trans += 1
             finals.setdefault(o, sched)
             continue
-        for k in range(n - off, 0, -1):
+        # k = 0: an empty piece is a legal element of an arrival schedule (a split at offset 0, two equal cuts);
+        # it must change nothing.  Explored once per state, after the non-empty arrivals (simplest first).
+        for k in list(range(n - off, 0, -1)) + [0]:
             d2 = clone(d)
             d2.receive_data(body[off : off + k])
             o, done = pump(d2, out)
